@@ -1,1 +1,446 @@
-//! placeholder
+//! Name-level reference model of Covercrypt key management.
+//!
+//! Written from the property statements and the doc comments of the public API, not from the
+//! expansion code: it knows dimensions, attribute names, hierarchy order, hints, status, which
+//! rights (sets of model-unique attribute uids) exist and which numbered revision of each right
+//! every master key, public key, user key and encapsulation holds.
+
+#![allow(dead_code)]
+
+use crate::gen::Conj;
+use std::collections::{BTreeMap, BTreeSet};
+
+pub type Uid = u32;
+pub type RevId = u32;
+pub type RightM = BTreeSet<Uid>;
+
+#[derive(Clone, Debug, PartialEq, Eq)]
+pub struct MAttr {
+    pub uid: Uid,
+    pub name: String,
+    pub hybrid: bool,
+    pub disabled: bool,
+    /// integer id observed in the serialized structure of the real key (set by the driver)
+    pub real_id: Option<u64>,
+}
+
+#[derive(Clone, Debug, PartialEq, Eq)]
+pub struct MDim {
+    pub name: String,
+    pub hier: bool,
+    /// rank order (lowest first) for hierarchies, insertion order otherwise
+    pub attrs: Vec<MAttr>,
+}
+
+#[derive(Clone, Debug, PartialEq, Eq, Default)]
+pub struct MStructure {
+    pub dims: Vec<MDim>,
+}
+
+#[derive(Clone, Debug, PartialEq, Eq)]
+pub enum Expect {
+    Ok,
+    Err(&'static str),
+}
+
+impl MStructure {
+    pub fn dim(&self, name: &str) -> Option<&MDim> {
+        self.dims.iter().find(|d| d.name == name)
+    }
+    pub fn dim_mut(&mut self, name: &str) -> Option<&mut MDim> {
+        self.dims.iter_mut().find(|d| d.name == name)
+    }
+    pub fn attr(&self, dim: &str, name: &str) -> Option<&MAttr> {
+        self.dim(dim).and_then(|d| d.attrs.iter().find(|a| a.name == name))
+    }
+    pub fn attr_by_uid(&self, uid: Uid) -> Option<(&MDim, &MAttr)> {
+        for d in &self.dims {
+            for a in &d.attrs {
+                if a.uid == uid {
+                    return Some((d, a));
+                }
+            }
+        }
+        None
+    }
+    pub fn n_attrs(&self) -> usize {
+        self.dims.iter().map(|d| d.attrs.len()).sum()
+    }
+    pub fn n_rights(&self) -> usize {
+        self.dims.iter().map(|d| d.attrs.len() + 1).product()
+    }
+    pub fn view(&self) -> crate::gen::View {
+        self.dims
+            .iter()
+            .map(|d| (d.name.clone(), d.hier, d.attrs.iter().map(|a| a.name.clone()).collect()))
+            .collect()
+    }
+
+    pub fn add_dim(&mut self, name: &str, hier: bool) -> Expect {
+        if self.dim(name).is_some() {
+            return Expect::Err("duplicate-dimension");
+        }
+        self.dims.push(MDim { name: name.to_string(), hier, attrs: vec![] });
+        Expect::Ok
+    }
+    pub fn del_dim(&mut self, name: &str) -> Expect {
+        match self.dims.iter().position(|d| d.name == name) {
+            None => Expect::Err("unknown-dimension"),
+            Some(i) => {
+                self.dims.remove(i);
+                Expect::Ok
+            }
+        }
+    }
+    /// Documented insertion rule: `after = None` gives the lowest rank, `after = x` puts the new
+    /// attribute directly above `x`; anarchies ignore `after`.
+    pub fn add_attr(&mut self, dim: &str, name: &str, hybrid: bool, after: Option<&str>, uid: Uid) -> Expect {
+        let Some(d) = self.dim_mut(dim) else { return Expect::Err("unknown-dimension") };
+        if d.attrs.iter().any(|a| a.name == name) {
+            return Expect::Err("duplicate-attribute");
+        }
+        let a = MAttr { uid, name: name.to_string(), hybrid, disabled: false, real_id: None };
+        if d.hier {
+            match after {
+                None => d.attrs.insert(0, a),
+                Some(x) => match d.attrs.iter().position(|b| b.name == x) {
+                    None => return Expect::Err("bad-after"),
+                    Some(i) => d.attrs.insert(i + 1, a),
+                },
+            }
+        } else {
+            d.attrs.push(a);
+        }
+        Expect::Ok
+    }
+    pub fn del_attr(&mut self, dim: &str, name: &str) -> Expect {
+        let Some(d) = self.dim_mut(dim) else { return Expect::Err("unknown-dimension") };
+        match d.attrs.iter().position(|a| a.name == name) {
+            None => Expect::Err("unknown-attribute"),
+            Some(i) => {
+                d.attrs.remove(i);
+                Expect::Ok
+            }
+        }
+    }
+    pub fn rename(&mut self, dim: &str, old: &str, new: &str) -> Expect {
+        let Some(d) = self.dim_mut(dim) else { return Expect::Err("unknown-dimension") };
+        if d.attrs.iter().any(|a| a.name == new) {
+            return Expect::Err("duplicate-attribute");
+        }
+        match d.attrs.iter_mut().find(|a| a.name == old) {
+            None => Expect::Err("unknown-attribute"),
+            Some(a) => {
+                a.name = new.to_string();
+                Expect::Ok
+            }
+        }
+    }
+    pub fn disable(&mut self, dim: &str, name: &str) -> Expect {
+        let Some(d) = self.dim_mut(dim) else { return Expect::Err("unknown-dimension") };
+        match d.attrs.iter_mut().find(|a| a.name == name) {
+            None => Expect::Err("unknown-attribute"),
+            Some(a) => {
+                a.disabled = true;
+                Expect::Ok
+            }
+        }
+    }
+
+    /// Every point of the structure: at most one attribute per dimension.
+    pub fn all_points(&self) -> Vec<RightM> {
+        let mut acc: Vec<RightM> = vec![BTreeSet::new()];
+        for d in &self.dims {
+            let mut next = acc.clone();
+            for a in &d.attrs {
+                for p in &acc {
+                    let mut q = p.clone();
+                    q.insert(a.uid);
+                    next.push(q);
+                }
+            }
+            acc = next;
+        }
+        acc
+    }
+
+    pub fn right_hybrid(&self, r: &RightM) -> bool {
+        r.iter().any(|u| self.attr_by_uid(*u).map(|(_, a)| a.hybrid).unwrap_or(false))
+    }
+    pub fn right_disabled(&self, r: &RightM) -> bool {
+        r.iter().any(|u| self.attr_by_uid(*u).map(|(_, a)| a.disabled).unwrap_or(false))
+    }
+
+    /// Is every name of the DNF known? (dimension, attribute)
+    pub fn unknown_name(&self, dnf: &[Conj]) -> Option<&'static str> {
+        for c in dnf {
+            for (d, a) in c {
+                match self.dim(d) {
+                    None => return Some("unknown-dimension"),
+                    Some(dim) => {
+                        if !dim.attrs.iter().any(|x| &x.name == a) {
+                            return Some("unknown-attribute");
+                        }
+                    }
+                }
+            }
+        }
+        None
+    }
+
+    /// A clause naming two attributes of one dimension: the model gives no judgement.
+    pub fn ill_formed(dnf: &[Conj]) -> bool {
+        dnf.iter().any(|c| {
+            let mut seen = BTreeSet::new();
+            c.iter().any(|(d, _)| !seen.insert(d.clone()))
+        })
+    }
+
+    /// Rights a user policy is entitled to [C01, README "Policies and coordinates"]: for each DNF
+    /// clause u, all points p such that for every dimension d mentioned by u, p has no attribute
+    /// in d, or the same attribute, or (hierarchy) an attribute of rank <= u[d]. Computed by
+    /// filtering all points with this predicate.
+    pub fn usk_rights(&self, dnf: &[Conj]) -> Result<BTreeSet<RightM>, &'static str> {
+        if let Some(e) = self.unknown_name(dnf) {
+            return Err(e);
+        }
+        let points = self.all_points();
+        let mut out = BTreeSet::new();
+        for u in dnf {
+            for p in &points {
+                let ok = u.iter().all(|(d, a)| {
+                    let dim = self.dim(d).unwrap();
+                    let ua = dim.attrs.iter().position(|x| &x.name == a).unwrap();
+                    match dim.attrs.iter().position(|x| p.contains(&x.uid)) {
+                        None => true,
+                        Some(pa) => pa == ua || (dim.hier && pa <= ua),
+                    }
+                });
+                if ok {
+                    out.insert(p.clone());
+                }
+            }
+        }
+        Ok(out)
+    }
+
+    /// Targets of an encryption policy: one right per conjunction (the set of its attributes).
+    pub fn enc_rights(&self, dnf: &[Conj]) -> Result<BTreeSet<RightM>, &'static str> {
+        if let Some(e) = self.unknown_name(dnf) {
+            return Err(e);
+        }
+        let mut out = BTreeSet::new();
+        for c in dnf {
+            let r: RightM = c.iter().map(|(d, a)| self.attr(d, a).unwrap().uid).collect();
+            out.insert(r);
+        }
+        Ok(out)
+    }
+}
+
+impl crate::gen::RankView for MStructure {
+    fn hier(&self, dim: &str) -> Option<bool> {
+        self.dim(dim).map(|d| d.hier)
+    }
+    fn rank(&self, dim: &str, attr: &str) -> Option<usize> {
+        self.dim(dim).and_then(|d| d.attrs.iter().position(|a| a.name == attr))
+    }
+}
+
+#[derive(Clone, Debug, PartialEq, Eq)]
+pub struct MRev {
+    pub id: RevId,
+    pub activated: bool,
+    pub hybrid: bool,
+}
+
+#[derive(Clone, Debug, PartialEq, Eq, Default)]
+pub struct MMsk {
+    pub structure: MStructure,
+    /// newest revision first
+    pub rights: BTreeMap<RightM, Vec<MRev>>,
+    pub users: BTreeSet<usize>,
+}
+
+#[derive(Clone, Debug, PartialEq, Eq)]
+pub struct MMpk {
+    pub structure: MStructure,
+    pub keys: BTreeMap<RightM, (RevId, bool)>,
+}
+
+#[derive(Clone, Debug, PartialEq, Eq)]
+pub struct MUsk {
+    pub id: usize,
+    /// newest first per right
+    pub rights: BTreeMap<RightM, Vec<RevId>>,
+    pub policy: String,
+    pub refreshed: u32,
+}
+
+#[derive(Clone, Debug, PartialEq, Eq)]
+pub struct MEnc {
+    pub targets: BTreeSet<(RightM, RevId)>,
+    pub hybrid: bool,
+    pub policy: String,
+    pub mpk_index: usize,
+}
+
+impl MMsk {
+    pub fn mpk(&self) -> MMpk {
+        MMpk {
+            structure: self.structure.clone(),
+            keys: self
+                .rights
+                .iter()
+                .filter_map(|(r, chain)| chain.first().filter(|rev| rev.activated).map(|rev| (r.clone(), (rev.id, rev.hybrid))))
+                .collect(),
+        }
+    }
+
+    /// `update_msk`: Err iff some right of the structure is new to the MSK and contains a
+    /// disabled attribute [C09]; otherwise drop rights not in the structure [C05], create rev for
+    /// new rights (activated), and set `activated` of the newest rev of every right [C06].
+    pub fn update(&mut self, next_rev: &mut RevId) -> (Expect, Vec<(RightM, RevId)>) {
+        let points: BTreeSet<RightM> = self.structure.all_points().into_iter().collect();
+        for p in &points {
+            if !self.rights.contains_key(p) && self.structure.right_disabled(p) {
+                return (Expect::Err("born-disabled"), vec![]);
+            }
+        }
+        self.rights.retain(|r, _| points.contains(r));
+        let mut created = vec![];
+        for p in points {
+            let disabled = self.structure.right_disabled(&p);
+            let hybrid = self.structure.right_hybrid(&p);
+            match self.rights.get_mut(&p) {
+                Some(chain) => {
+                    chain[0].activated = !disabled;
+                }
+                None => {
+                    let id = *next_rev;
+                    *next_rev += 1;
+                    self.rights.insert(p.clone(), vec![MRev { id, activated: true, hybrid }]);
+                    created.push((p, id));
+                }
+            }
+        }
+        (Expect::Ok, created)
+    }
+
+    /// `rekey`: Err iff unknown names or some right of the policy is not held; every right gets a
+    /// new newest rev that inherits activation [C06] and flavour [C11].
+    pub fn rekey(&mut self, dnf: &[Conj], next_rev: &mut RevId) -> (Expect, Vec<(RightM, RevId)>) {
+        let rights = match self.structure.usk_rights(dnf) {
+            Ok(r) => r,
+            Err(e) => return (Expect::Err(e), vec![]),
+        };
+        if rights.iter().any(|r| !self.rights.contains_key(r)) {
+            return (Expect::Err("rekey-unheld"), vec![]);
+        }
+        let mut created = vec![];
+        for r in rights {
+            let chain = self.rights.get_mut(&r).unwrap();
+            let id = *next_rev;
+            *next_rev += 1;
+            let (activated, hybrid) = (chain[0].activated, chain[0].hybrid);
+            chain.insert(0, MRev { id, activated, hybrid });
+            created.push((r, id));
+        }
+        (Expect::Ok, created)
+    }
+
+    /// `prune`: chains of the rights of the policy held by the MSK are cut to their newest rev.
+    pub fn prune(&mut self, dnf: &[Conj]) -> (Expect, usize) {
+        let rights = match self.structure.usk_rights(dnf) {
+            Ok(r) => r,
+            Err(e) => return (Expect::Err(e), 0),
+        };
+        let mut removed = 0;
+        for r in rights {
+            if let Some(chain) = self.rights.get_mut(&r) {
+                removed += chain.len() - 1;
+                chain.truncate(1);
+            }
+        }
+        (Expect::Ok, removed)
+    }
+
+    pub fn keygen(&mut self, dnf: &[Conj], id: usize, policy: String) -> Result<MUsk, &'static str> {
+        let rights = self.structure.usk_rights(dnf)?;
+        if rights.iter().any(|r| !self.rights.contains_key(r)) {
+            return Err("keygen-unheld");
+        }
+        let usk = MUsk {
+            id,
+            rights: rights.into_iter().map(|r| {
+                let rev = self.rights[&r][0].id;
+                (r, vec![rev])
+            }).collect(),
+            policy,
+            refreshed: 0,
+        };
+        self.users.insert(id);
+        Ok(usk)
+    }
+
+    /// `refresh_usk`: Err iff the id is not registered; rights not held by the MSK are dropped;
+    /// keep=false: newest rev only; keep=true: MSK revs newer than the key's newest, plus those of
+    /// the key's revs that are still in the MSK chain [C04, C05]. Never adds rights.
+    pub fn refresh(&self, usk: &mut MUsk, keep: bool) -> Expect {
+        if !self.users.contains(&usk.id) {
+            return Expect::Err("unknown-user");
+        }
+        let mut out = BTreeMap::new();
+        for (r, revs) in &usk.rights {
+            let Some(chain) = self.rights.get(r) else { continue };
+            if keep {
+                let newest_user = revs.iter().copied().max().unwrap_or(0);
+                let mut v: Vec<RevId> = chain.iter().filter(|m| m.id > newest_user).map(|m| m.id).collect();
+                v.extend(revs.iter().copied().filter(|x| chain.iter().any(|m| m.id == *x)));
+                if !v.is_empty() {
+                    out.insert(r.clone(), v);
+                }
+            } else {
+                out.insert(r.clone(), vec![chain[0].id]);
+            }
+        }
+        usk.rights = out;
+        usk.refreshed += 1;
+        Expect::Ok
+    }
+}
+
+impl MMpk {
+    /// `encaps`: Err if a name is unknown, if a conjunction names two attributes of one dimension
+    /// (no such right), or if the MPK publishes no key for a right (disabled / not yet created).
+    pub fn encaps(&self, dnf: &[Conj]) -> Result<(BTreeSet<(RightM, RevId)>, bool), &'static str> {
+        let rights = self.structure.enc_rights(dnf)?;
+        let mut targets = BTreeSet::new();
+        let mut all_h = true;
+        for r in rights {
+            // a "right" with two attributes of one dimension is not a point of the structure
+            let mut dims_seen = BTreeSet::new();
+            for u in &r {
+                if let Some((d, _)) = self.structure.attr_by_uid(*u) {
+                    if !dims_seen.insert(d.name.clone()) {
+                        return Err("enc-two-attrs-one-dim");
+                    }
+                }
+            }
+            match self.keys.get(&r) {
+                None => {
+                    return Err(if self.structure.right_disabled(&r) { "enc-disabled" } else { "enc-not-yet-created" });
+                }
+                Some((rev, h)) => {
+                    all_h &= *h;
+                    targets.insert((r, *rev));
+                }
+            }
+        }
+        Ok((targets, all_h))
+    }
+}
+
+pub fn opens(usk: &MUsk, enc: &MEnc) -> bool {
+    enc.targets.iter().any(|(r, rev)| usk.rights.get(r).map(|v| v.contains(rev)).unwrap_or(false))
+}
